@@ -47,6 +47,10 @@ def rules(ctx):
     ctx.rule('R06.5', "the penalty reaches the model only through += / -= (also in the AND-shape shortcut of "
                       "add_constraint_eq_zero) and the recorded polynomial is a fresh, unshared copy", floor=6)
     meths = gate_methods(P)
+    ctx.rule('R06.8', "finite truth table of the literal gadget polynomial of each gate method (closed expression over the "
+                      "operands' atoms): 0 where the gate relation holds, >= 1 elsewhere, within the literal bounds", floor=14)
+    from .gate_tables import gate_table_rules
+    gate_table_rules(ctx, 'R06.8', {'add_constraint_' + k if not k.startswith('add_constraint_') else k: v for k, v in meths.items()})
     from . import C02
     from .C07 import no_metadata_reads
     ctx.rule('R06.6', "no function reachable from a gate method reads the display metadata `name` of an operand", floor=16)
